@@ -139,11 +139,14 @@ func NewChannel(topicName string, channelName string, nsqd *NSQD,
 	return c
 }
 
-func (c *Channel) initPQ() {
+// initPQ (re)creates the in-flight and deferred structures and
+// returns the in-flight messages it discarded
+func (c *Channel) initPQ() map[MessageID]*Message {
 	pqSize := int(math.Max(1, float64(c.nsqd.getOpts().MemQueueSize)/10))
 
 	c.inFlightMutex.Lock()
 	verif.Ev("IFReset", "c", vc(c), "n", len(c.inFlightMessages))
+	discarded := c.inFlightMessages
 	c.inFlightMessages = make(map[MessageID]*Message)
 	c.inFlightPQ = newInFlightPqueue(pqSize)
 	c.inFlightMutex.Unlock()
@@ -153,6 +156,8 @@ func (c *Channel) initPQ() {
 	c.deferredMessages = make(map[MessageID]*pqueue.Item)
 	c.deferredPQ = pqueue.New(pqSize)
 	c.deferredMutex.Unlock()
+
+	return discarded
 }
 
 // Exiting returns a boolean indicating if this channel is closed/exiting
@@ -217,8 +222,16 @@ func (c *Channel) Empty() error {
 	verif.Ev("EmptyBegin", "c", vc(c))
 	defer verif.Ev("EmptyEnd", "c", vc(c))
 
-	c.initPQ()
+	// take exactly the discarded messages off their consumers' in-flight
+	// counts: a blanket reset would race with a FIN/REQ/TOUCH, a timeout or
+	// a delivery that is in progress and leave the counts wrong for good
+	discarded := c.initPQ()
 	verif.Yield("empty.afterReset", vc(c))
+	for _, msg := range discarded {
+		if client, ok := c.clients[msg.clientID]; ok {
+			client.TimedOutMessage()
+		}
+	}
 	for _, client := range c.clients {
 		client.Empty()
 	}
@@ -621,6 +634,11 @@ func (c *Channel) removeFromInFlightPQ(msg *Message) {
 	c.inFlightMutex.Lock()
 	if msg.index == -1 {
 		// this item has already been popped off the pqueue
+		c.inFlightMutex.Unlock()
+		return
+	}
+	if msg.index >= len(c.inFlightPQ) || c.inFlightPQ[msg.index] != msg {
+		// the pqueue was replaced (Empty) since this item was pushed
 		c.inFlightMutex.Unlock()
 		return
 	}
